@@ -46,6 +46,7 @@ func DefaultConfig() Config {
 type Decision struct {
 	Kind byte   // 'b' bool, 'v' concretized value, 'c' structural choice
 	Val  uint64
+	Site string // where it was taken (diagnostics of a non-deterministic replay)
 }
 
 type Violation struct {
@@ -144,7 +145,7 @@ func (i *Interp) decide(cond *smt.Term, site string) bool {
 		d := ex.prefix[ex.pos]
 		ex.pos++
 		if d.Kind != 'b' {
-			panic(fmt.Sprintf("decision kind mismatch at %s: have %c want b (non-deterministic replay)", site, d.Kind))
+			panic(fmt.Sprintf("decision kind mismatch at %s: have %c (%s) want b (non-deterministic replay)", site, d.Kind, d.Site))
 		}
 		ex.taken = append(ex.taken, d)
 		if d.Val != 0 {
@@ -190,17 +191,17 @@ func (i *Interp) decide(cond *smt.Term, site string) bool {
 		if !take {
 			other = 1
 		}
-		nw := append(append([]Decision{}, ex.taken...), Decision{'b', other})
+		nw := append(append([]Decision{}, ex.taken...), Decision{'b', other, site})
 		ex.newWork = append(ex.newWork, nw)
 		ex.forkSites["b:"+site]++
 	}
 	if take {
-		ex.taken = append(ex.taken, Decision{'b', 1})
+		ex.taken = append(ex.taken, Decision{'b', 1, site})
 		ex.pc = append(ex.pc, cond)
 		ex.model = tM
 		return true
 	}
-	ex.taken = append(ex.taken, Decision{'b', 0})
+	ex.taken = append(ex.taken, Decision{'b', 0, site})
 	ex.pc = append(ex.pc, ncond)
 	ex.model = fM
 	return false
@@ -227,7 +228,7 @@ func (i *Interp) concretize(t *smt.Term, site string) *smt.Term {
 		d := ex.prefix[ex.pos]
 		ex.pos++
 		if d.Kind != 'v' {
-			panic(fmt.Sprintf("decision kind mismatch at %s: have %c want v", site, d.Kind))
+			panic(fmt.Sprintf("decision kind mismatch at %s: have %c (%s) want v", site, d.Kind, d.Site))
 		}
 		ex.taken = append(ex.taken, d)
 		cv := c.Const(t.Sort, d.Val)
@@ -265,11 +266,11 @@ func (i *Interp) concretize(t *smt.Term, site string) *smt.Term {
 		i.abort(stInfeasible, "no feasible value at "+site)
 	}
 	for _, v := range vals[1:] {
-		nw := append(append([]Decision{}, ex.taken...), Decision{'v', v})
+		nw := append(append([]Decision{}, ex.taken...), Decision{'v', v, site})
 		ex.newWork = append(ex.newWork, nw)
 		ex.forkSites["v:"+site]++
 	}
-	ex.taken = append(ex.taken, Decision{'v', vals[0]})
+	ex.taken = append(ex.taken, Decision{'v', vals[0], site})
 	cv := c.Const(t.Sort, vals[0])
 	ex.pc = append(ex.pc, c.Eq(t, cv))
 	ex.model = firstModel
@@ -287,7 +288,7 @@ func (i *Interp) concretizeOne(t *smt.Term, site string) *smt.Term {
 		d := ex.prefix[ex.pos]
 		ex.pos++
 		if d.Kind != 'o' {
-			panic(fmt.Sprintf("decision kind mismatch at %s: have %c want o", site, d.Kind))
+			panic(fmt.Sprintf("decision kind mismatch at %s: have %c (%s) want o", site, d.Kind, d.Site))
 		}
 		ex.taken = append(ex.taken, d)
 		cv := c.Const(t.Sort, d.Val)
@@ -299,7 +300,7 @@ func (i *Interp) concretizeOne(t *smt.Term, site string) *smt.Term {
 		i.abort(stInconclusive, "no model to pick a representative value at "+site)
 	}
 	v := t.Eval(m, map[*smt.Term]uint64{})
-	ex.taken = append(ex.taken, Decision{'o', v})
+	ex.taken = append(ex.taken, Decision{'o', v, site})
 	cv := c.Const(t.Sort, v)
 	ex.pc = append(ex.pc, c.Eq(t, cv))
 	return cv
@@ -315,16 +316,16 @@ func (i *Interp) choiceN(k int, site string) int {
 		d := ex.prefix[ex.pos]
 		ex.pos++
 		if d.Kind != 'c' {
-			panic(fmt.Sprintf("decision kind mismatch at %s: have %c want c", site, d.Kind))
+			panic(fmt.Sprintf("decision kind mismatch at %s: have %c (%s) want c; prefix=%s", site, d.Kind, d.Site, sitesOf(ex.prefix)))
 		}
 		ex.taken = append(ex.taken, d)
 		return int(d.Val)
 	}
 	for v := 1; v < k; v++ {
-		nw := append(append([]Decision{}, ex.taken...), Decision{'c', uint64(v)})
+		nw := append(append([]Decision{}, ex.taken...), Decision{'c', uint64(v), site})
 		ex.newWork = append(ex.newWork, nw)
 	}
-	ex.taken = append(ex.taken, Decision{'c', 0})
+	ex.taken = append(ex.taken, Decision{'c', 0, site})
 	return 0
 }
 
@@ -784,4 +785,12 @@ func (e *Explorer) merge(pr *PathResult, newWork [][]Decision) {
 		e.stop = true
 		e.work = nil
 	}
+}
+
+func sitesOf(ds []Decision) string {
+	var sb strings.Builder
+	for _, d := range ds {
+		fmt.Fprintf(&sb, "%c%d@%s ", d.Kind, d.Val, d.Site)
+	}
+	return sb.String()
 }
